@@ -1259,7 +1259,9 @@ impl ManageConnection for ServerPool {
     fn has_broken(&self, conn: &mut Self::Connection) -> bool {
         #[cfg(feature = "verif_hooks")]
         conn.verif_checkin_event();
-        conn.is_bad()
+        // Mirror connections are checked in and out around every message, mid-transaction
+        // included, so only client-facing connections are required to come back clean.
+        conn.is_bad() || (self.address.role != Role::Mirror && conn.is_dirty())
     }
 }
 
